@@ -23,7 +23,9 @@ Mutations == {"valid", "empty", "truncate_1", "truncate_half", "truncate_last", 
               "len_2p32", "len_2p40", "len_2p61", "len_max",          \* first length field replaced
               "count_huge", "count_plus_one", "elem_len_over", "elem_len_max", "short_header",
               "declared_size_huge",     \* a well-formed compressed frame whose header announces a huge content size
-              "stray_1", "stray_3", "stray_7"}   \* a valid frame, then the stream ends inside the next length marker
+              "stray_1", "stray_3", "stray_7",   \* a valid frame, then the stream ends inside the next length marker
+              \* a valid frame with the complete length marker of a next frame right behind it, in the same read
+              "next_len_2p30", "next_len_2p63", "next_len_max"}
 Sizes == {"tiny", "small", "medium"}
 
 \* which mutations make sense for which stage
@@ -33,7 +35,8 @@ Applies(st, mu) ==
       [] mu \in {"len_2p32", "len_2p40", "len_2p61", "len_max"} ->
             st \in {"frame", "frame_stream", "batch", "bincode_struct", "bincode_vec", "bincode_string", "sub_batch"}
       [] mu = "declared_size_huge" -> st \in {"zstd", "sub_zstd_batch"}
-      [] mu \in {"stray_1", "stray_3", "stray_7"} -> st \in {"frame", "frame_stream"}
+      [] mu \in {"stray_1", "stray_3", "stray_7", "next_len_2p30", "next_len_2p63", "next_len_max"} ->
+            st \in {"frame", "frame_stream"}
       [] OTHER -> TRUE
 
 Cases == {[stage |-> st, mut |-> mu, size |-> sz] : st \in Stages, mu \in Mutations, sz \in Sizes}
@@ -44,6 +47,7 @@ Allowed(c) ==
     CASE c.mut = "valid" -> {"ok"}
       [] c.mut \in {"count_huge", "elem_len_over", "elem_len_max", "short_header", "count_plus_one"} -> {"err"}
       [] c.mut \in {"len_2p32", "len_2p40", "len_2p61", "len_max"} /\ c.stage \in {"frame", "frame_stream", "batch", "sub_batch"} -> {"err"}
+      [] c.mut \in {"next_len_2p30", "next_len_2p63", "next_len_max"} -> {"err"}    \* the announced frame is over the limit
       [] OTHER -> {"ok", "err"}
 
 \* memory bound: a * (input + output) + b
